@@ -864,6 +864,14 @@ def run_text_level(ck, pr):
         if r < 0.97:
             return "TArrow"
         return rng.choice(["TComma", ("TOpen", "GTup"), ("TClose", "GTup"), ("TS", "0%nat", True), ("TRg", True, True), ("TNamed", codes("n")), "TFunc"])
+
+    def unq(t):
+        """Coq prints the lexer model's constructors qualified (FmtLexProofs.L.KControl): drop the qualifier"""
+        if isinstance(t, str):
+            return t.rsplit(".", 1)[-1]
+        if isinstance(t, (list, tuple)):
+            return type(t)(unq(x) for x in t)
+        return t
     cases = [[gen_tok() for _ in range(rng.randint(1, 7))] for _ in range(ck.n(300, 6000))]
     # every symbol next to every symbol (maximal munch across a blank), and each class alone
     cases += [[("TS", "%d%%nat" % a, False), ("TS", "%d%%nat" % b, False)] for a in range(nsym) for b in range(nsym)]
@@ -878,7 +886,7 @@ def run_text_level(ck, pr):
         ck.count("corr-text-lex", text + "|" + str(v[0]))
         ck.stat("corr-text-lex", "in-fragment" if v[0] else "outside")
         if v[0]:
-            todo.append((ts, text, [py_model_kind(k) for k in v[1][1]]))
+            todo.append((ts, text, [py_model_kind(unq(k)) for k in v[1][1]]))
     ans = harness("c14lex", [{"src": t} for _, t, _ in todo])
     for (ts, text, want), a in zip(todo, ans):
         got = [py_impl_kind(k) for k in a["ok"]][1:] if isinstance(a, dict) and "ok" in a else None
